@@ -342,6 +342,9 @@ def _stage_order(ck, repo):
     ck.ob("argument_coercer: the argument hook runs after the value was coerced (type-level hooks are inside the literal coercer)", ok, a, dc[0] if dc else a.node, construct="order:argument")
     ck.ob("argument_coercer: the argument hook's return value is the argument's value", dc and isinstance(av.stmt_of(dc[0]), ast.Return), a, dc[0] if dc else a.node, construct="order:argument-value")
     _argument_hooks_on_every_value(ck, a)
+    # output side: type-level hooks run inside the inner coercer - the non-null wrapper must let every value (a null too) reach it
+    from .c02 import output_non_null_wrapper
+    output_non_null_wrapper(ck, repo)
     r = repo.func("tartiflette/resolver/factory.py", "resolve_field_value_or_error")
     rv = FuncView(r)
     w = rv.maybe_call("wraps_with_directives")
